@@ -65,3 +65,23 @@ def rtext(e: ast.AST | None, roles: dict[str, str]) -> str:
         if isinstance(x, ast.Name) and x.id in roles:
             x.id = roles[x.id]
     return " ".join(ast.unparse(e2).split())
+
+
+def ckey(f: Func, node: ast.AST, width: int = 64) -> str:
+    """Short, local-free text of an expression or simple statement, for obligation keys (never source text: keys must not change
+    under a rename of locals)."""
+    c = canon(f)
+    if isinstance(node, ast.Assign):
+        t = " = ".join([c.text(x) for x in node.targets] + [c.text(node.value)])
+    elif isinstance(node, ast.AugAssign):
+        t = f"{c.text(node.target)} op= {c.text(node.value)}"
+    elif isinstance(node, ast.Delete):
+        t = "del " + ", ".join(c.text(x) for x in node.targets)
+    elif isinstance(node, (ast.Expr, ast.Return)):
+        t = c.text(node.value) if node.value is not None else ""
+    elif isinstance(node, ast.stmt):
+        t = type(node).__name__
+    else:
+        t = c.text(node)
+    half = (width - 3) // 2
+    return t if len(t) <= width else t[:half] + "..." + t[-half:]
